@@ -21,6 +21,8 @@ const FREE_LOGGED: ExecOpts = ExecOpts {
 };
 
 fn viol(ctx: &mut Ctx, key: &str, size: usize, desc: String, argv: Vec<String>) {
+    // outputs of large cases are quoted in the descriptions: keep the head
+    let desc = if desc.len() > 6000 { format!("{} ... [{} bytes in all]", desc.chars().take(6000).collect::<String>(), desc.len()) } else { desc };
     ctx.rep.violation(Violation {
         key: key.to_string(),
         size,
@@ -372,7 +374,7 @@ pub fn oligo_explore(ctx: &mut Ctx, case: &OligoCase, bound: Option<u32>, which:
     let cfg = ExploreCfg {
         bound,
         shard: (ctx.shard.idx, ctx.shard.n),
-        split_level: 2,
+        split_level: if window_now().is_some() { 1 } else { 2 },
         root: vec![],
         branch: &always,
         max_executions: 3_000_000,
@@ -392,7 +394,11 @@ pub fn oligo_explore(ctx: &mut Ctx, case: &OligoCase, bound: Option<u32>, which:
                     asg[e.arg as usize] = b'0' + e.task as u8;
                 }
             }
-            assignments.insert(String::from_utf8(asg).unwrap());
+            if asg.len() > 64 {
+                assignments.insert(assignment(asg.iter().enumerate().map(|(i, &t)| (i as u64, (t - b'0') as usize))));
+            } else {
+                assignments.insert(String::from_utf8(asg).unwrap());
+            }
         }
         let choices = res.choices();
         let mut bad: Option<(String, String)> = None;
@@ -486,6 +492,18 @@ fn oligo_cases(ctx: &Ctx) -> Vec<(OligoCase, Option<u32>, String)> {
 pub fn c05_sched(ctx: &mut Ctx) {
     for (case, bound, label) in oligo_cases(ctx) {
         oligo_explore(ctx, &case, bound, 5, &label);
+    }
+    // more than 2^16 records: every way of preempting the workers within the first decisions (see `ExploreCfg::window`)
+    {
+        let recs = many_after_one(65_600);
+        for (threads, label) in [(2usize, "N2many"), (3, "N3many")] {
+            if threads == 3 && !ctx.thorough() {
+                continue; // three workers on the large input: thorough tier
+            }
+            let case = OligoCase { threads, k: 2, header: false, delim: " ".into(), records: recs.clone(), memory: None };
+            let w = ctx.pick(16usize, 40);
+            with_window(w, || oligo_explore(ctx, &case, Some(1), 5, label));
+        }
     }
 
     if ctx.shard.is_first() {
@@ -746,7 +764,7 @@ pub fn ctr_explore(ctx: &mut Ctx, case: &CtrCase, bound: Option<u32>, label: &st
     let cfg = ExploreCfg {
         bound,
         shard: (ctx.shard.idx, ctx.shard.n),
-        split_level: 2,
+        split_level: if window_now().is_some() { 1 } else { 2 },
         root: vec![],
         branch: &count_only,
         max_executions: 2_000_000,
@@ -852,6 +870,18 @@ pub fn c07_sched(ctx: &mut Ctx) {
     ];
     for (case, bound, label) in cases {
         ctr_explore(ctx, &case, bound, label);
+    }
+    // more than 2^16 records in one chunk: every way of preempting the counting workers within the first decisions
+    {
+        let recs = many_after_one(65_600);
+        for (threads, label) in [(2usize, "N2.many"), (3, "N3.many")] {
+            if threads == 3 && !ctx.thorough() {
+                continue; // three workers on the large input: thorough tier
+            }
+            let case = CtrCase { threads, k: 11, mem: 6.0, records: recs.clone(), delete: true };
+            let w = ctx.pick(16usize, 40);
+            with_window(w, || ctr_explore(ctx, &case, Some(1), label));
+        }
     }
     if ctx.shard.is_first() {
         ctx.rep.sample("N=2, records [ACA, ACA], k=2, base limit 0: worker 0 passes the limit check, worker 1 passes it too before worker 0 adds its bases -> one chunk with two records; otherwise two chunks of one".to_string());
@@ -1148,6 +1178,9 @@ pub fn c10_sched(ctx: &mut Ctx) {
     {
         let recs = many_after_one(65_600);
         for (threads, label) in [(2usize, "N2many"), (3, "N3many")] {
+            if threads == 3 && !ctx.thorough() {
+                continue; // three workers on the large input: thorough tier
+            }
             let case = MinCase { threads, w: 9, m: 5, records: recs.clone() };
             let b = ctx.pick(1u32, 2);
             with_window(ctx.pick(16usize, 40), || {
